@@ -471,11 +471,7 @@ impl<K: Hash + Eq, V, RH: BuildHasher, FH: BuildHasher, GH: BuildHasher> Cache<K
         // frequently used list
         if self.ghost.contains(&k) {
             return if recent_len + freq_len >= self.size {
-                let ent = if recent_len > self.recent_size {
-                    self.recent.remove_lru_in().unwrap()
-                } else {
-                    self.frequent.remove_lru_in().unwrap()
-                };
+                let ent = self.evict_resident(recent_len > self.recent_size);
 
                 let rst = self.ghost.put_or_evict_nonnull(ent);
                 match self.ghost.map.remove(&key_ref) {
@@ -540,11 +536,7 @@ impl<K: Hash + Eq, V, RH: BuildHasher, FH: BuildHasher, GH: BuildHasher> Cache<K
         // LRU. Then, put the removed entry to the front of the ghost LRU,
         // if ghost LRU is also full, the cache will evict the less recent used entry of
         // ghost LRU.
-        let ent = if recent_len >= self.recent_size {
-            self.recent.remove_lru_in().unwrap()
-        } else {
-            self.frequent.remove_lru_in().unwrap()
-        };
+        let ent = self.evict_resident(recent_len >= self.recent_size);
 
         self.recent.put_nonnull(bks);
         self.ghost.put_nonnull(ent)
@@ -1574,6 +1566,23 @@ impl<K: Hash + Eq, V, RH: BuildHasher, FH: BuildHasher, GH: BuildHasher>
     /// ```
     pub fn frequent_iter_lru_mut(&mut self) -> LRUIterMut<'_, K, V> {
         self.frequent.iter_lru_mut()
+    }
+
+    /// Unlinks the least recently used entry of the preferred resident queue, falling back
+    /// to the other queue when the preferred one is empty (e.g. a recent quota of 0 with an
+    /// empty recent queue, or a recent ratio of 1.0 with an empty frequent queue). Only called
+    /// when the cache is full, so one of the two queues is not empty.
+    fn evict_resident(&mut self, from_recent: bool) -> core::ptr::NonNull<EntryNode<K, V>> {
+        if from_recent {
+            self.recent
+                .remove_lru_in()
+                .or_else(|| self.frequent.remove_lru_in())
+        } else {
+            self.frequent
+                .remove_lru_in()
+                .or_else(|| self.recent.remove_lru_in())
+        }
+        .unwrap()
     }
 
     fn move_to_frequent<T, Q>(&mut self, k: &Q, v: T) -> Option<T>
